@@ -35,7 +35,10 @@ impl BlobWriter {
         Ok(())
     }
 
-    pub(crate) fn write_record(&mut self, record: Record) -> AnyResult<()> {
+    pub(crate) fn write_record(&mut self, mut record: Record) -> AnyResult<()> {
+        // records that were skipped in the source shift the following ones: the offset kept in the header
+        // (it is what the index is rebuilt from) must be the position in this file
+        record.header = record.header.with_blob_offset(self.written)?;
         bincode::serialize_into(&mut self.file, &record.header).with_context(|| "write header")?;
         let mut written = 0;
         written += bincode::serialized_size(&record.header)?;
